@@ -67,6 +67,11 @@ type fsim struct {
 	fired  int      // how many faults fired
 	after  int      // armed calls seen after f1 fired
 	what   []string // description of the fired faults
+
+	curStep     int
+	firedStep   int // step in which the first fault fired
+	afterInStep int // armed calls between the first fault and the end of its step (the rollback's calls)
+	stepClosed  bool
 }
 
 func (s *fsim) install(db database.DB) {
@@ -137,22 +142,44 @@ func (s *fsim) hit(kind int, file uint32) string {
 		if k == "short" && kind != evWrite {
 			k = "err"
 		}
+		if s.fired == 0 {
+			s.firedStep = s.curStep
+		}
 		s.fired++
 		s.what = append(s.what, fmt.Sprintf("%s(f%d) call #%d: %s", evKindNames[kind], file, s.calls, k))
 	}
 	return k
 }
 
-func (s *fsim) arm(f1, f2 fault) {
+// plan resets the counters and sets the faults for the next run (not yet armed).
+func (s *fsim) plan(f1, f2 fault) {
 	s.mu.Lock()
-	s.armed, s.calls, s.kinds, s.f1, s.f2, s.fired, s.after, s.what = true, 0, nil, f1, f2, 0, 0, nil
+	s.armed, s.calls, s.kinds, s.f1, s.f2, s.fired, s.after, s.what = false, 0, nil, f1, f2, 0, 0, nil
+	s.afterInStep, s.stepClosed, s.firedStep = 0, false, -1
 	s.mu.Unlock()
 }
 
-func (s *fsim) disarm() {
+// resume / pause bracket the transaction steps: only calls made between them
+// are numbered and can fail.
+func (s *fsim) resume(step int) {
+	s.mu.Lock()
+	s.armed, s.curStep = true, step
+	s.mu.Unlock()
+}
+
+func (s *fsim) pause() {
 	s.mu.Lock()
 	s.armed = false
+	if s.fired >= 1 && !s.stepClosed {
+		s.stepClosed, s.afterInStep = true, s.after
+	}
 	s.mu.Unlock()
+}
+
+func (s *fsim) firedCount() int {
+	s.mu.Lock()
+	defer s.mu.Unlock()
+	return s.fired
 }
 
 type simFile struct {
